@@ -328,7 +328,6 @@ pb_h!(pb_first_notc, 1, 2, 0, false, 3);
 // thorough tier: other round shapes
 pb_h!(pb_gap3_notc, 5, 8, 4, false, 9);
 pb_h!(pb_gap_delivered_tc, 5, 7, 5, true, 8);
-pb_h!(pb_consec_behind_notc, 5, 6, 4, false, 9);
 pb_h!(pb_first_gap_tc, 1, 3, 0, true, 4);
 /// b0(5) <- b1(7, proposed after a view change: carries the TC of round 6) <- block: a TC on b1 does not make (b0, b1) a
 /// consecutive-round 2-chain, nothing is committed.
